@@ -460,6 +460,7 @@ func genScanDFA(c *ctx) {
 		next    string
 		act     int            // last `lex.act = N` of the block, -1 none
 		emits   bool           // contains `goto _out`
+		ffs     []string         // ids passed to lex.addFreeFloatingToken
 		sw      map[int][]string // `switch lex.act`: case -> token expressions assigned in it
 		swOrder []int
 	}
@@ -521,6 +522,9 @@ func genScanDFA(c *ctx) {
 					}
 					if nodeText(t.Fun) == "lex.ungetCnt" || nodeText(t.Fun) == "lex.ungetStr" {
 						ti.unget = true
+					}
+					if nodeText(t.Fun) == "lex.addFreeFloatingToken" && len(t.Args) == 4 {
+						ti.ffs = append(ti.ffs, nodeText(t.Args[1]))
 					}
 				case *ast.AssignStmt:
 					if len(t.Lhs) == 1 && nodeText(t.Lhs[0]) == "tok" && len(t.Rhs) == 1 {
@@ -640,7 +644,8 @@ func genScanDFA(c *ctx) {
 			act = fmt.Sprintf("some %d", ti.act)
 		}
 		nm := fmt.Sprintf("trInfo_%d", ti.n)
-		fmt.Fprintf(&b, "def %s : TrInfo := { id := %d, act := %s, emits := %v, toks := %s, sw := [%s], next := %d }\n", nm, 10000+ti.n, act, ti.emits, uniq(toks), strings.Join(sw, ", "), next)
+		hold := (ti.holds && !ti.teNext) || ti.unget
+		fmt.Fprintf(&b, "def %s : TrInfo := { id := %d, act := %s, emits := %v, toks := %s, sw := [%s], next := %d, ffs := %s, hold := %v }\n", nm, 10000+ti.n, act, ti.emits, uniq(toks), strings.Join(sw, ", "), next, uniq(ti.ffs), hold)
 		trNames = append(trNames, nm)
 	}
 	var trGroups []string
